@@ -1406,6 +1406,11 @@ func eventSysFacts(p *packages.Package) {
 		fail("filters package not loaded")
 		return
 	}
+	if fd, _ := findFunc(p, "FilterLogs"); fd != nil {
+		facts["filterLogsGuards"] = ifConds(fd)
+	} else {
+		fail("FilterLogs not found")
+	}
 	if fd := findMethod(p, "EventSystem", "consumeEvents"); fd != nil {
 		facts["eventSysConsume"] = syncTokens(fd.Body)
 	} else {
